@@ -142,3 +142,20 @@ recover_stubs! { #[kani::unwind(5)] fn c09_recover_noy() { recover1(24, 2, 2) } 
 recover_stubs! { #[kani::unwind(5)] fn c09_recover_y1() { recover1(48, 2, 2) } }
 recover_stubs! { #[kani::unwind(5)] fn c09_recover_y1_y1() { recover2(48, 48) } }
 recover_stubs! { #[kani::unwind(5)] fn c09_recover_noy_y1() { recover2(24, 48) } }
+
+// ---- WASM grouping call on arbitrary short strings ---------------------------------------
+#[kani::proof]
+#[kani::unwind(8)]
+#[kani::stub(alloc::fmt::format, fmt_noop)]
+fn c09_group_shares_ascii4() {
+    let b: [u8; 4] = kani::any();
+    kani::assume(b[0] < 128 && b[1] < 128 && b[2] < 128 && b[3] < 128);
+    let n: usize = kani::any();
+    kani::assume(n <= 4);
+    if let Ok(s) = core::str::from_utf8(&b[..n]) {
+        let r = star_wasm::group_shares(s, "e");
+        // nothing this short decodes to a share
+        assert!(r.is_none(), "undecodable input yields nothing");
+        kani::cover!(true, "reached");
+    }
+}
